@@ -141,8 +141,11 @@ where
                 | none => simp [hbody] at hopen
                 | some i =>
                   simp only [hbody] at hopen
-                  obtain ⟨hcond, _⟩ := ite_ok hopen
-                  exact ⟨some i, sl, rfl, by rw [hcond.2.2]⟩
+                  by_cases hie : i = R.encIV
+                  · rw [if_pos hie] at hopen; cases hopen
+                  · rw [if_neg hie] at hopen
+                    obtain ⟨hcond, _⟩ := ite_ok hopen
+                    exact ⟨some i, sl, rfl, by rw [hcond.2.2]⟩
 
 /-- with the free hash, equal digests mean equal transcripts: both endpoints fed exactly the same
     cleartext bytes (frame headers included, hence the same frame boundaries) in that direction,
